@@ -79,6 +79,16 @@ def gen_cases(ctx, per_method):
                                 tags={"m=" + meth, kind, "declen=" + ("exact" if declen == dl else "short" if declen < dl else "long")},
                                 note=(gid, declen, mon)))
             gid += 1
+        # declared lengths at and beyond 2^32 (the API takes a size_t): the bytes obtainable are what the stream can produce, the same
+        # for every such declared length and every read schedule (pm1 continues a short stream with zero bits for ever: left out)
+        if pool and meth != "pm1":
+            data, dl = r.choice(pool)
+            for declen in (2 ** 32 - 1, 2 ** 32, 2 ** 32 + r.choice([1, 100, 4097]), 2 ** 33 + 5, 2 ** 40):
+                for sc in ([100000], [r.choice([1, 7, 4096])] if dl < 3000 else [8192]):
+                    mon = r.choice([-1, 0, 1])
+                    out.append(Case(S.dec_op(meth, declen, 0, mon, sc, data), tags={"m=" + meth, "valid", "declen>=2^32" if declen >= 2 ** 32 else "declen=2^32-1"},
+                                    note=(gid, declen, mon)))
+            gid += 1
     return out
 
 
@@ -132,6 +142,9 @@ def judge_groups(cases, c_outs):
                 why[i] = "reported CRC %s != CRC-16 of the returned bytes %04x" % (d["crc"], crc16(ob))
             elif ref is None:
                 ref = (i, ob)
+            elif ob != ref[1] and declen != cases[ref[0]].note[1]:
+                why[i] = ("the bytes obtainable depend on the declared length although both declared lengths (%d, %d) exceed what the stream "
+                          "can produce: %d bytes here, %d there" % (declen, cases[ref[0]].note[1], len(ob), len(ref[1])))
             elif ob != ref[1]:
                 why[i] = "split-dependent output: %d bytes here, %d bytes with schedule of case %d (first difference at %d)" % (
                     len(ob), len(ref[1]), ref[0], next((k for k in range(min(len(ob), len(ref[1]))) if ob[k] != ref[1][k]), min(len(ob), len(ref[1]))))
